@@ -8,6 +8,8 @@
 #include <sys/eventfd.h>
 #include <unistd.h>
 #include <memory>
+#include <map>
+#include <deque>
 #include <tbox/base/log_output.h>
 #include <tbox/event/loop.h>
 #include <tbox/event/fd_event.h>
@@ -26,8 +28,6 @@
 #include <tbox/flow/actions/wrapper_action.h>
 #include <tbox/flow/actions/composite_action.h>
 #include <tbox/flow/action_executor.h>
-#include <map>
-#include <deque>
 
 using namespace tbox;
 using namespace tbox::flow;
@@ -36,14 +36,28 @@ static event::Loop *loop = nullptr;
 static Action *root = nullptr;
 static std::vector<Action*> nodes;          // by preorder id
 static std::vector<DummyAction*> dummies;   // by id (nullptr if not a dummy)
+static std::map<int, std::vector<int>> kid_ids;   // composite id -> child ids
+static std::vector<bool> is_func, is_asm;         // by id
+static int root_fins = 0;                         // finish callbacks of the root since its last reset (free mode)
+static int last_root_ctl = -1;                    // last control call made on the root in the current op (free mode), -1 none
 
-static void ev(const std::string &s) { std::cout << "P e " << s << "\n"; }
+// free mode (after an `icb` op): call-outs of inner nodes make control calls; the model does not predict such
+// runs, the harness checks the clauses that need no prediction and prints `P VIOLATION …`; events go to `B` lines
+static bool free_mode = false;
+static void ev(const std::string &s) { std::cout << (free_mode ? "B e " : "P e ") << s << "\n"; }
+static void violation(const std::string &s) { std::cout << "P VIOLATION " << s << "\n"; }
+struct ICall { int kind; };                                    // 0 start 1 pause 2 resume 3 stop 4 reset
+typedef std::deque<std::pair<int, std::vector<ICall>>> IScripts;   // (target node, calls), one-shot, in order
+static std::map<int, IScripts> scr_body, scr_ifinal;           // by node id
+static void run_iscript(std::map<int, IScripts> &m, int id);
+static void check_final(int id);
 
 struct Parser {
     std::vector<std::string> toks; size_t pos = 0; int next_id = 0; bool bad = false;
     std::vector<Action*> made;      // every node built so far, by id (for cleanup on error)
     std::vector<DummyAction*> dums;
     std::vector<Action*> orphans;   // built but not (yet) owned by a parent
+    std::map<int, std::vector<Action*>> kids;   // children of composite `id`
 
     static bool split_tmo(const std::string &tok, std::string &base, int &tmo) {
         tmo = -1;
@@ -72,12 +86,13 @@ struct Parser {
                 uint64_t t; if (!vh::to_u64(c[1], t) || t > 20) return nullptr;
                 FunctionAction::FuncWithReason f = [id, succ, t](Action::Reason &r) {
                     ev("fn " + std::to_string(id));
+                    run_iscript(scr_body, id);
                     r = Action::Reason(100 + (int)t, "case:" + std::to_string(t));
                     return succ;
                 };
                 a = new FunctionAction(*loop, std::move(f));
             } else {
-                FunctionAction::Func f = [id, succ] { ev("fn " + std::to_string(id)); return succ; };
+                FunctionAction::Func f = [id, succ] { ev("fn " + std::to_string(id)); run_iscript(scr_body, id); return succ; };
                 a = new FunctionAction(*loop, std::move(f));
             }
             reg(a, id, tmo); return a;
@@ -179,8 +194,9 @@ struct Parser {
         // the children are owned by `a` now
         for (auto x : ch) for (auto it = orphans.begin(); it != orphans.end(); ++it) if (*it == x) { orphans.erase(it); break; }
         orphans.push_back(a);
-        a->setFinalCallback([id] { ev("final " + std::to_string(id)); });
+        a->setFinalCallback([id] { ev("final " + std::to_string(id)); check_final(id); run_iscript(scr_ifinal, id); });
         made[slot] = a;
+        kids[id] = ch;
         if (tmo >= 0) a->setTimeout(std::chrono::milliseconds(100 * tmo + 2 * id + 2));
         return a;
     }
@@ -247,12 +263,13 @@ static bool parse_call(const std::string &w, Call &c) {
 }
 
 static bool do_call(const Call &c) {
+    if (c.kind <= 4) last_root_ctl = c.kind;
     switch (c.kind) {
         case 0: return root->start();
         case 1: return root->pause();
         case 2: return root->resume();
         case 3: return root->stop();
-        case 4: root->reset(); return true;
+        case 4: root->reset(); root_fins = 0; return true;
         default: {
             DummyAction *d = dummies[c.n];
             if (!d || d->state() != Action::State::kRunning) return false;     // a leaf completes / blocks only while it runs
@@ -260,6 +277,56 @@ static bool do_call(const Call &c) {
             return true;
         }
     }
+}
+
+// ---- free mode: control calls from the call-outs of inner nodes
+static bool do_icall(int target, const ICall &c) {
+    Action *a = nodes[target];
+    if (target == 0) last_root_ctl = c.kind;
+    switch (c.kind) {
+        case 0: return a->start();
+        case 1: return a->pause();
+        case 2: return a->resume();
+        case 3: return a->stop();
+        default: a->reset(); if (target == 0) root_fins = 0; return true;
+    }
+}
+static void run_iscript(std::map<int, IScripts> &m, int id) {
+    auto it = m.find(id);
+    if (it == m.end() || it->second.empty()) return;
+    auto sc = std::move(it->second.front()); it->second.pop_front();
+    for (auto &c : sc.second) ev(std::string("iret ") + (do_icall(sc.first, c) ? "1" : "0"));
+}
+static bool ended(Action *a) { auto s = a->state(); return s == Action::State::kFinished || s == Action::State::kStoped; }
+static bool underway(Action *a) { auto s = a->state(); return s == Action::State::kRunning || s == Action::State::kPause; }
+// the final callback belongs to an action that has just ended
+static void check_final(int id) {
+    if (!free_mode || id >= (int)nodes.size() || !nodes[id]) return;
+    if (!ended(nodes[id])) violation("final callback of node " + std::to_string(id) + " in state " + stch(nodes[id]->state()));
+}
+static bool any_underway_below(int id) {
+    auto it = kid_ids.find(id);
+    if (it == kid_ids.end()) return false;
+    for (int k : it->second) if (underway(nodes[k]) || any_underway_below(k)) return true;
+    return false;
+}
+// after every loop pass: below an action that is not under way nothing is Running / Pause
+static void check_quiescent() {
+    for (size_t i = 0; i < nodes.size(); ++i)
+        if (!underway(nodes[i]) && any_underway_below((int)i)) {
+            violation("descendant under way below node " + std::to_string(i) + " in state " + stch(nodes[i]->state())); return; }
+}
+// the last control call made on the root in this op (from outside or from a call-out) was stop() / reset():
+// at the end of the op the root is not under way / is Idle
+static void check_last_call() {
+    if (last_root_ctl == 3 && underway(root)) violation(std::string("root is ") + stch(root->state()) + " after stop()");
+    if (last_root_ctl == 4 && root->state() != Action::State::kIdle) violation(std::string("root is ") + stch(root->state()) + " after reset()");
+}
+// `settle` (after the queue has drained and every timer expired): a Running composite waits for a child under way
+static void check_settled() {
+    for (size_t i = 0; i < nodes.size(); ++i)
+        if (is_asm[i] && nodes[i]->state() == Action::State::kRunning && !any_underway_below((int)i)) {
+            violation("running composite " + std::to_string(i) + " waits for nothing"); return; }
 }
 
 // one-shot callback scripts of the root: every invocation of the callback takes the next script and makes its
@@ -278,18 +345,19 @@ int main() {
     int efd = eventfd(1, EFD_NONBLOCK);             // counter > 0 and never read: readable in every pass
     auto fdev = loop->newFdEvent("verif-driver");
     fdev->initialize(efd, event::FdEvent::kReadEvent, event::Event::Mode::kPersist);
-    bool pending = false; std::string pending_rets;
+    bool pending = false, settle_pending = false; std::string pending_rets;
     fdev->setCallback([&](short) {
         if (pending) {
             if (xexec) std::cout << "P x r=" << pending_rets << " cur=" << xexec->current() << " st=" << xsnapshot() << "\n";
+            else if (free_mode) { std::cout << "B r=" << pending_rets << " s=" << snapshot() << "\n"; check_quiescent(); check_last_call(); if (settle_pending) check_settled(); std::cout << "P free\n"; }
             else std::cout << "P r=" << pending_rets << " s=" << snapshot() << "\n";
-            pending = false;
+            pending = false; settle_pending = false; last_root_ctl = -1;
         }
         std::string line;
         if (!std::getline(std::cin, line)) { drop_exec(); drop_tree(); loop->exitLoop(); return; }
         auto w = vh::words(line);
         if (w.empty()) return;
-        if (w[0] == "case") { drop_exec(); drop_tree(); std::cout << line << "\n"; return; }
+        if (w[0] == "case") { drop_exec(); drop_tree(); free_mode = false; std::cout << line << "\n"; return; }
         // ---- executor ops (only in a case without a tree)
         if (w[0][0] == 'x') {
             uint64_t n, pr;
@@ -340,11 +408,28 @@ int main() {
             drop_tree();
             root = t; nodes = ps.made; dummies = ps.dums;
             scr_final.clear(); scr_fin.clear(); scr_blk.clear();
+            free_mode = false; scr_body.clear(); scr_ifinal.clear(); root_fins = 0;
+            kid_ids.clear(); is_func.assign(nodes.size(), false); is_asm.assign(nodes.size(), false);
+            {
+                std::map<Action*, int> idx;
+                for (size_t i = 0; i < nodes.size(); ++i) idx[nodes[i]] = (int)i;
+                for (auto &kv : ps.kids) { for (auto x : kv.second) kid_ids[kv.first].push_back(idx[x]); is_asm[kv.first] = true; }
+                for (size_t i = 0; i < nodes.size(); ++i) is_func[i] = dynamic_cast<FunctionAction*>(nodes[i]) != nullptr;
+            }
             root->setFinishCallback([](bool s, const Action::Reason &why, const Action::Trace &) {
-                ev("fin " + std::to_string(s ? 1 : 0) + " " + std::to_string(why.code)); run_script(scr_fin); });
-            root->setBlockCallback([](const Action::Reason &why, const Action::Trace &) { ev("blk " + std::to_string(why.code)); run_script(scr_blk); });
+                ev("fin " + std::to_string(s ? 1 : 0) + " " + std::to_string(why.code));
+                if (free_mode) {
+                    if (root->state() != Action::State::kFinished) violation(std::string("finish notification while the root is ") + stch(root->state()));
+                    if (++root_fins > 1) violation("finish notification delivered twice in one run");
+                }
+                run_script(scr_fin); });
+            root->setBlockCallback([](const Action::Reason &why, const Action::Trace &) {
+                ev("blk " + std::to_string(why.code));
+                if (free_mode && (root->state() == Action::State::kIdle || root->state() == Action::State::kStoped))
+                    violation(std::string("block notification while the root is ") + stch(root->state()));
+                run_script(scr_blk); });
             if (auto as = dynamic_cast<AssembleAction*>(root))
-                as->setFinalCallback([] { ev("final 0"); run_script(scr_final); });
+                as->setFinalCallback([] { ev("final 0"); check_final(0); run_script(scr_final); run_iscript(scr_ifinal, 0); });
             std::cout << "P tree n=" << nodes.size() << " s=" << snapshot() << "\n";
             return;
         }
@@ -361,6 +446,17 @@ int main() {
                 loop->runNext([cs] { for (auto &c : cs) ev(std::string("ret ") + (do_call(c) ? "1" : "0")); }, "verif-defer");
             }
             pending = true;
+        } else if (w[0] == "icb" && w.size() >= 5 && w.size() <= 10 && (w[1] == "body" || w[1] == "final")) {
+            uint64_t n, tg;
+            if (!vh::to_u64(w[2], n) || n >= nodes.size() || !vh::to_u64(w[3], tg) || tg >= nodes.size() ||
+                (w[1] == "body" ? !is_func[n] : !is_asm[n])) { std::cout << "bad-op\n"; return; }
+            std::vector<ICall> cs;
+            for (size_t i = 4; i < w.size(); ++i) { Call c; if (!parse_call(w[i], c) || c.kind == 5) { std::cout << "bad-op\n"; return; } cs.push_back(ICall{c.kind}); }
+            (w[1] == "body" ? scr_body : scr_ifinal)[(int)n].push_back(std::make_pair((int)tg, cs));
+            free_mode = true;
+            pending_rets = "-"; pending = true;
+        } else if (w[0] == "settle" && w.size() == 1 && free_mode) {
+            pending_rets = "-"; pending = true; settle_pending = true;
         } else if (w[0] == "cb" && w.size() >= 3 && w.size() <= 8 && (w[1] == "final" || w[1] == "fin" || w[1] == "blk")) {
             std::vector<Call> cs;
             for (size_t i = 2; i < w.size(); ++i) { Call c; if (!parse_call(w[i], c) || c.kind == 5) { std::cout << "bad-op\n"; return; } cs.push_back(c); }
